@@ -261,14 +261,31 @@ def r6(run, db):
     fs = [f for f in db.find(r"^ractor::rpc::call_and_forward::\{closure#0\}$")]
     run.anchor("call_and_forward wait block", len(fs), 1)
     f = fs[0]
+    # the forwarding send happens at most once, and only for a Success reply: inside the closure handed to CallResult::map
+    # (which applies it to Success only, checked below), or written out behind the Success edge of a match on the reply
     maps = [c for c in f.calls() if c.matches(r"CallResult::<T>::map$")]
-    run.check(len(maps) == 1 and not f.in_cycle(maps[0].site), "map-once", "the forward is applied through CallResult::map, once", "forwarding not through a single CallResult::map", f.where())
+    map_closures = set()
+    for mc in maps:
+        for r in f.origins(mc.args[1]):
+            if r["k"] == "agg" and r["stmt"]["rv"].get("kind") == "closure":
+                map_closures.add(r["stmt"]["rv"]["def"])
     sends = []
-    for ch in db.children(f.id):
+    for ch in db.family(f.id):
         sends += [(ch, c) for c in ch.calls() if c.is_("ActorCell::send_message")]
-    run.check(len(sends) == 1 and not sends[0][0].in_cycle(sends[0][1].site), "forward-once", "exactly one forwarding send, inside the map closure, not in a cycle", "%d forwarding sends" % len(sends), f.where())
-    direct = [c for c in f.calls() if c.is_("ActorCell::send_message")]
-    run.check(not direct, "no-direct-forward", "no forwarding send outside the Success mapping", "a forwarding send bypasses the Success mapping", f.where())
+    run.check(len(sends) == 1 and not sends[0][0].in_cycle(sends[0][1].site) and not any(f.in_cycle(mc.site) for mc in maps), "forward-once", "exactly one forwarding send, not in a cycle", "%d forwarding sends" % len(sends), f.where())
+    for ch, c in sends:
+        if ch.id in map_closures:
+            run.ok("forward-on-success", "the forwarding send is the body of the closure applied by CallResult::map", c.where())
+            continue
+        good = False
+        if ch.id == f.id:
+            for site, t in f.switches():
+                info = f.switch_info(site)
+                e = info.get("edges", {})
+                if info.get("kind") == "enum" and "Success" in e and "Timeout" in e and "SenderError" in e:
+                    if f.edge_dominates((site.bb, e["Success"]), c.site) and e["Success"] not in [v for k_, v in e.items() if k_ != "Success"]:
+                        good = True
+        run.check(good, "forward-on-success", "the forwarding send lies behind the Success edge of a match on the reply", "a forwarding send bypasses the Success mapping", c.where())
     mp = [g for g in db.crate_fns("ractor") if g.id.endswith("CallResult::<T>::map")]
     for g in mp:
         calls = [c for c in g.calls() if c.matches(r"FnOnce::call_once$")]
@@ -285,14 +302,10 @@ def r8(run, db):
         run.fail("anchor:internal_call wait block", "internal_call::{closure#0} not found")
         return
     run.saw(len(f.blocks), f)
-    brs = [c for c in f.calls() if c.matches(r"ops::Try>::branch$|Try::branch$") and any(r["k"] == "upvar" for r in f.origins(c.args[0]))]
-    run.check(len(brs) == 1, "send-result-checked", "the wait block checks the send result (`sent?`) once", "the wait block does not check the send result", f.where())
+    brs = result_decisions(f, lambda r: r["k"] == "upvar")
+    run.check(len(brs) == 1, "send-result-checked", "the wait block checks the send result (`sent?` or a match on it) once", "the wait block does not check the send result", f.where())
     if brs:
-        t = f.term(brs[0].target)
-        cont = None
-        if t["k"] == "switch":
-            info = f.switch_info(f.term_site(brs[0].target))
-            cont = (brs[0].target, info["edges"].get("Continue"))
+        cont = brs[0]["cont_edge"]
         for a in awaits(f):
             run.check(cont and f.edge_dominates(cont, a.poll.site), "await-only-after-send-ok@%d" % a.poll.bb, "every await of the reply lies on the Ok edge of the send result",
                       "the reply is awaited although the send failed: the refused message (and the reply port inside it) is still alive, so the caller hangs", a.poll.where())
